@@ -728,10 +728,10 @@ func (g *x02Gen) abundance(p x02Profile) int {
 		return 1
 	case x < 14:
 		return 2 + g.rng.Intn(4)
-	case x < 19 || !p.big:
+	case x < 19 || !p.big || g.rng.Intn(2) == 0:
 		return 6 + g.rng.Intn(500)
 	}
-	return 1000000 + g.rng.Intn(3000000)
+	return 1000000 + g.rng.Intn(1000000) // TLC integers are 32-bit: totals must stay far below 2^31
 }
 
 var x02Extra = []struct {
